@@ -648,6 +648,38 @@ func ruleCancelEarly(p *core.Program) []core.Obligation {
 				store = c
 			}
 		}
+		// or the cancel function of context.WithCancel handed to a helper that keeps it in a field
+		// (q.canceller.store(cancel): the cancellation state grouped into its own type)
+		if c, ok := ins.(*ssa.Call); ok && store == nil {
+			if callee := c.Call.StaticCallee(); callee != nil && callee.Blocks != nil && p.InRepo(callee) {
+				for ai, a := range c.Call.Args {
+					ex, isEx := a.(*ssa.Extract)
+					if !isEx || ex.Index != 1 || ai >= len(callee.Params) {
+						continue
+					}
+					if wc, ok := ex.Tuple.(*ssa.Call); !ok || core.CalleeName(&wc.Call) != "context.WithCancel" {
+						continue
+					}
+					prm := callee.Params[ai]
+					core.EachInstr(callee, func(_ *ssa.BasicBlock, _ int, x ssa.Instruction) {
+						if st, ok := x.(*ssa.Store); ok && st.Val == ssa.Value(prm) {
+							if _, isField := st.Addr.(*ssa.FieldAddr); isField {
+								store = c
+							}
+						}
+					})
+				}
+			}
+		}
+		if st, ok := ins.(*ssa.Store); ok && store == nil {
+			if ex, isEx := st.Val.(*ssa.Extract); isEx && ex.Index == 1 {
+				if wc, ok := ex.Tuple.(*ssa.Call); ok && core.CalleeName(&wc.Call) == "context.WithCancel" {
+					if _, isField := st.Addr.(*ssa.FieldAddr); isField {
+						store = st
+					}
+				}
+			}
+		}
 		if cc := core.CallCommon(ins); cc != nil && cc.IsInvoke() && isVectorOperatorIface(cc.Value.Type()) && (cc.Method.Name() == "Series" || cc.Method.Name() == "Next") {
 			planCalls = append(planCalls, ins)
 		}
@@ -1045,9 +1077,28 @@ func ruleSelKey(p *core.Program) []core.Obligation {
 	const rule = "R-SELKEY"
 	fn := p.Func("execution/storage", "hashMatchers")
 	if fn == nil {
+		// the key function turned into a method (selectParams.hash()): the function of the package that feeds an
+		// xxhash digest and returns its Sum64
+		for _, f := range p.Funcs {
+			if core.Rel(f.Pkg.Pkg.Path()) != "execution/storage" || f.Parent() != nil {
+				continue
+			}
+			sums := false
+			core.EachInstr(f, func(_ *ssa.BasicBlock, _ int, ins ssa.Instruction) {
+				if cc := core.CallCommon(ins); cc != nil && strings.HasSuffix(core.CalleeName(cc), "xxhash/v2.Digest).Sum64") {
+					sums = true
+				}
+			})
+			if sums {
+				fn = f
+			}
+		}
+	}
+	if fn == nil {
 		return []core.Obligation{core.Ob(rule, "storage.hashMatchers", "-", "", core.Lost, "not found")}
 	}
 	used := map[string]bool{}
+	intFields := map[string]bool{}
 	core.EachInstr(fn, func(b *ssa.BasicBlock, i int, ins ssa.Instruction) {
 		cc := core.CallCommon(ins)
 		if cc == nil {
@@ -1060,6 +1111,18 @@ func ruleSelKey(p *core.Program) []core.Obligation {
 				}
 				if n, f, _, ok := core.FieldRef(x); ok && n != nil && n.Obj().Name() == "SelectHints" {
 					used[f] = true
+				}
+				// the select parameters grouped into a struct of the package: its int64 fields (mint, maxt, step)
+				if n, f, _, ok := core.FieldRef(x); ok && n != nil && n.Obj().Pkg() != nil && n.Obj().Pkg().Path() == core.Module+"/execution/storage" {
+					if v, isVal := x.(ssa.Value); isVal {
+						t := v.Type()
+						if pt, isPtr := t.Underlying().(*types.Pointer); isPtr {
+							t = pt.Elem()
+						}
+						if isIntType(t) {
+							intFields[f] = true
+						}
+					}
 				}
 				return true
 			})
@@ -1078,6 +1141,9 @@ func ruleSelKey(p *core.Program) []core.Obligation {
 		ok := used[n.alt]
 		if i < len(ints) && used["param:"+ints[i]] {
 			ok = true
+		}
+		if len(ints) == 0 && len(intFields) >= 2 {
+			ok = true // start and end are two of the hashed int64 fields of the parameter struct
 		}
 		if !ok {
 			missing = append(missing, n.what)
